@@ -282,9 +282,23 @@ def main():
                                "%d clock policies x 2 download modes: %d runs" % (max_len, len(sweep.SMALL_OPS),
                                                                                  len(sweep.SMALL_LIMITS), len(sweep.SMALL_CLOCKS), total))
 
+    def smallscope19(max_len):
+        from checks import sweep
+        n = len(sweep.smallscope19_bases(max_len))
+        tasks = [("smallscope19", prop, ch, {"max_len": max_len}) for ch in chunked(range(n), 6)]
+        before = agg.n
+        for r in run_parallel(tasks, workers):
+            agg.merge(r)
+        notes["smallscope"] = ("every history of length <= %d over %d operations on 4 keys (sim/file/https, post-process, validate) x "
+                               "2 size limits x tolerant/strict: %d base histories, each with EVERY crash point (plus torn variants) and "
+                               "EVERY applicable single fault at every download position: %d runs" % (
+                                   max_len, len(sweep.SMALL19_OPS), n, agg.n - before))
+
     try:
+        if prop == "C19":
+            smallscope19(2)
         if prop == "C18":
-            smallscope(3)
+            smallscope(3 if tier == "quick" else 4)
         if tier == "quick":
             swarm(0, n_quick)
             sweeps(0, n_sweep, {"crash_limit": 120, "fault_limit": 100})
